@@ -23,24 +23,24 @@ def run(ctx, repo):
         'R-PARSER-LOOKAHEAD) and the 1024-character simple-key window (R-SIMPLE-KEY-LIMIT).')
     ctx.trust('CPython ast; sa.pyxfront lowering; the event grammar transcribed from the header of lib/yaml/parser.py')
     ctx.assume('A-LIBYAML: libyaml implements the same documented grammar and the 1024-character simple key limit')
-    RSB.r_class_composition(ctx, repo)
-    RSB.r_codec_exhaustive(ctx, repo)
-    RSB.r_composer_sibling(ctx, repo)
-    RSB.r_serializer_sibling(ctx, repo)
-    RD.r_error_map(ctx, repo)
-    RD.r_pyx_except_clause(ctx, repo)
-    RO.r_option_plumbing(ctx, repo)
-    RSB.r_parser_lookahead(ctx, repo)
-    RSB.r_simple_key_limit(ctx, repo)
-    RX.r_docmarker_column0(ctx, repo)
+    ctx.call(RSB.r_class_composition, repo)
+    ctx.call(RSB.r_codec_exhaustive, repo)
+    ctx.call(RSB.r_composer_sibling, repo)
+    ctx.call(RSB.r_serializer_sibling, repo)
+    ctx.call(RD.r_error_map, repo)
+    ctx.call(RD.r_pyx_except_clause, repo)
+    ctx.call(RO.r_option_plumbing, repo)
+    ctx.call(RSB.r_parser_lookahead, repo)
+    ctx.call(RSB.r_simple_key_limit, repo)
+    ctx.call(RX.r_docmarker_column0, repo)
     # both back-ends must agree on what ends the input: libyaml's read handler contract is "0 bytes read"; the Python
     # reader must likewise declare end of input only on an empty read (a short read is not the end)
-    RRD.r_incremental_decode(ctx, repo)
-    RG.r_parser_grammar(ctx, repo, max_len=8 if ctx.tier == 'thorough' else 6)
+    ctx.call(RRD.r_incremental_decode, repo)
+    ctx.call(RG.r_parser_grammar, repo, max_len=8 if ctx.tier == 'thorough' else 6)
 
-    RSTATE.r_directives_reset(ctx, repo)
+    ctx.call(RSTATE.r_directives_reset, repo)
     # the LibYAML composer hands the event's (plain, quoted) flags to resolve() unchanged; so must the Python composer
-    RLANG.r_resolve_index(ctx, repo)
+    ctx.call(RLANG.r_resolve_index, repo)
 
 
 if __name__ == '__main__':
